@@ -224,6 +224,11 @@ func init() {
 			k.WBadProvide = 1
 			k.PCycleKeep = 10
 			k.WVisualize, k.WString = 1, 1
+			// the comparison is purely differential, so keys that are
+			// decorated without having a constructor are in the domain too
+			k.PDecoOrphan = 20
+			k.POpt = 30
+			k.WDecorate = 5
 			return GenCase(t, scale(k, thorough))
 		},
 		Check: func(c *Case, st *Stats) *Failure {
